@@ -319,6 +319,8 @@ def r15_3(ctx: Ctx, rep: Report) -> None:
             first_seq = None
             prior_field = None
             for t, truth in p.atoms:
+                if isinstance(t, ast.Name):
+                    t = deep_resolve(t, p.env)  # `is_block = isinstance(other, AceGroup)` ... `if is_block and ...`
                 if isinstance(t, ast.Compare) and len(t.ops) == 1 and isinstance(t.ops[0], (ast.Eq, ast.NotEq)):
                     cl, cr = chain(t.left), chain(t.comparators[0])
                     if cl and cr and cl[-1].lstrip("_") == cr[-1].lstrip("_") == "sequence" and {cl[0], cr[0]} == {"self", other}:
@@ -424,6 +426,8 @@ def unnumbered_block_is_not_zero(ctx: Ctx, rep: Report, rid: str = "R15.18") -> 
         verdicts = set()
         not_block = False
         for t, truth in p.atoms:
+            if isinstance(t, ast.Name):
+                t = deep_resolve(t, p.env)
             if isinstance(t, ast.Compare) and len(t.ops) == 1 and isinstance(t.ops[0], (ast.Eq, ast.NotEq)):
                 cl, cr = chain(t.left), chain(t.comparators[0])
                 if cl and cr and cl[-1].lstrip("_") == cr[-1].lstrip("_") == "sequence":
